@@ -14,6 +14,7 @@ from ..gen import workload as W
 from ..prng import sub
 
 ID = "C01"
+PROBES = ['sites_created', 'readbacks', 'probe_hasrepr_site']  # reach probes: counters that must be non-zero in a run (a zero is printed and recorded)
 LEVEL = "exploration"
 BUDGET = {"quick": 1500, "thorough": 60000}
 WALL = {"quick": 240, "thorough": 3000}
